@@ -49,6 +49,9 @@ impl Opts {
     pub fn new() -> Opts {
         let args = Args::parse();
 
+        //Directory set in the toml configuration file, used when the `--path` flag is not passed
+        let mut toml_dir: Option<String> = None;
+
         let (optimizations, vulnerabilities, qa) = if args.toml.is_some() {
             let toml_path = args.toml.unwrap();
 
@@ -57,6 +60,8 @@ impl Opts {
 
             let solstat_toml: SolstatToml =
                 toml::from_str(&toml_str).expect("Could not convert toml contents to SolstatToml");
+
+            toml_dir = Some(solstat_toml.path.clone());
 
             (
                 solstat_toml
@@ -85,6 +90,8 @@ impl Opts {
 
         let path = if args.path.is_some() {
             args.path.unwrap()
+        } else if toml_dir.is_some() {
+            toml_dir.unwrap()
         } else {
             match fs::read_dir("./contracts") {
                 Ok(_) => {}
